@@ -1037,8 +1037,29 @@ PINS = {
 }
 PROOF_FILES = ["R/Syntax.v", "R/Rt.v", "R/Mon.v"]
 
-QUICK_N = {"C01": 1500, "C02": 3000, "C03": 3000, "C04": 3000, "C05": 3000, "C06": 2500, "C15": 3000, "C16": 2500, "C20": 3000}
-THOROUGH_N = {"C01": 14000, "C02": 30000, "C03": 30000, "C04": 30000, "C05": 30000, "C06": 24000, "C15": 30000, "C16": 24000, "C20": 30000}
+QUICK_N = {"C01": 4500, "C02": 9000, "C03": 9000, "C04": 9000, "C05": 9000, "C06": 7500, "C15": 9000, "C16": 7500, "C20": 9000}
+THOROUGH_N = {"C01": 40000, "C02": 90000, "C03": 90000, "C04": 90000, "C05": 90000, "C06": 70000, "C15": 90000, "C16": 60000, "C20": 90000}
+
+# what is proved of the model for each property (goes into the evidence; docs/layer_r.md has the details)
+CLAIM = {
+    "C01": dict(partial=False, proved="C01_exactly_once_fifo: forall d p fuel t, exec d fuel p = Done t -> ~In (EModel M_DRAINLEFT 0) t -> C01_ok t = true; F4_refuted (class inhabited, C01_ok false there)",
+                missing="size/alignment/volume independence of the execution order is the Layer Q theorem (C17); here the queues are abstract lists"),
+    "C15": dict(partial=False, proved="C15_time: forall d p fuel t, exec d fuel p = Done t -> C15_ok t = true", missing=""),
+    "C06": dict(partial=True, proved="main-queue quiescence and order (C01_exactly_once_fifo) and idle-first / time (C15_time)",
+                missing="C06_plain_ok (lazy and idle FIFO lists, lazy-after-main, run's boolean) and C06_calls_ok (pending calls) for all programs: validated on every real and model trace only"),
+    "C02": dict(partial=True, proved="C02_order_gating_partial: gating/holding/flush order of one item; packed state bits = state of the pair",
+                missing="forall-programs statement of C02_ok (per-actor FIFO of calls across Prep->Ready and terminations): validated on traces only"),
+    "C03": dict(partial=True, proved="C03_once_partial: termination makes a Zombie and takes the notifier once; Close+Notify pushed together; stop/fail first-writer-wins",
+                missing="forall-programs statement of C03_ok: validated on traces only"),
+    "C04": dict(partial=True, proved="C04_owner_count_partial: translated strong count is an exact counter below saturation; last owner drop queues terminate(Dropped) at the end of the main queue",
+                missing="forall-programs statement of C04_ok (count = number of live owners needs linearity of handles over the whole configuration): validated on traces only"),
+    "C05": dict(partial=True, proved="C05_ret_once_partial: invoking a Ret consumes it and produces its event first",
+                missing="linearity of Ret values over the whole configuration, hence the forall-programs statement of C05_ok: validated on traces only"),
+    "C16": dict(partial=True, proved="C16_heap_partial: translated MinRc table frees exactly on 1->0, clone/drop round trip, model frees the cell exactly then; C01 gives exactly-once consumption of main-queue closures",
+                missing="forall-programs statement of C16_ok (no leak outside F4/F5/F7, no double consumption for every object kind); machine-level memory safety is sampled under AddressSanitizer (thorough tier)"),
+    "C20": dict(partial=True, proved="C20_open_close_partial (ids, Open/Close adjacency, delivery iff allowed) and C20_filter_table (9x9 table of the translated From<LogLevel>/allows)",
+                missing="forall-programs statement of C20_ok: validated on traces only"),
+}
 
 # which event kinds make a case "non-trivial" for a property (rule recorded in the evidence)
 NONTRIVIAL = {
@@ -1274,10 +1295,13 @@ def run(prop, tier, seed):
         samples=samples, distribution=dist,
         skipped_ambiguous_timer_order=summ_all["ambig"], model_out_of_fuel=summ_all["fuel"],
         known_finding_cases=dict((k, len(v)) for k, v in known_seen.items()),
+        theorem=CLAIM[prop]["proved"], theorem_is_partial=CLAIM[prop]["partial"], not_proved=CLAIM[prop]["missing"],
         problems=problems, violations_detail=[dict(kind=k, case=n, replay=p, detail=d) for k, n, p, d in violations][:10],
     ))
-    ev.assumptions = ["timer expiries in generated programs are >= 1 ms away from every run instant and < 30000 s ahead (order of firing by expiry, ties by creation)",
-                      "programs mixing Max/Min timers with other timers in one firing batch or at teardown are skipped (order owned by Layer T)"]
+    if CLAIM[prop]["partial"]:
+        ev.assumptions.append("PARTIAL PROOF: " + CLAIM[prop]["missing"])
+    ev.assumptions += ["timer expiries in generated programs are >= 1 ms away from every run instant and < 30000 s ahead (order of firing by expiry, ties by creation)",
+                       "programs mixing Max/Min timers with other timers in one firing batch or at teardown are skipped (order owned by Layer T)"]
     ev.write()
     vlib.log("%s %s: %d cases, %d validated against the implementation, %d non-trivial, %.0fs" % (prop, tier, n_eval, summ_all["validated"], len(nontrivial), time.time() - t0))
     return rc
